@@ -62,7 +62,7 @@ Proof.
 Qed.
 
 (* ---------- the excess ledger (ExcessLedger.excess_ledger) on a concrete history ---------- *)
-From MD.Proofs Require Import PmChainProofs ExcessLedger.
+From MD.Proofs Require Import PmChainProofs ExcessLedger ClaimSplit.
 
 Definition setup0 : list op := firstn 2 ops0.         (* pool creation, first deposit *)
 Definition core0 : list op :=
@@ -134,4 +134,27 @@ Proof.
   exists w0. split; [reflexivity|].
   assert (Hw : w0 = match genesis_world g0 with Ok w => w | Err _ => w0 end) by (rewrite E; reflexivity).
   rewrite Hw. clear. vm_compute. split; reflexivity.
+Qed.
+
+(* ---------- ClaimSplit.one_claim_is_two_claims speaks about real states: after ops0 and two more days, alice (cursor at
+   epoch 2) claiming at epoch 4 meets every hypothesis with an intermediate claim at epoch 3; the farm pays 262 for each of
+   the epochs 3 and 4 ---------- *)
+Definition split_statement : Prop :=
+  exists w0, genesis_world g0 = Ok w0 /\
+    let s := w_fm (run w0 (ops0 ++ [SetBlock (day 4)])) in
+    exists f, sfind f_id "m-f" (fm_farms s) = Some f /\
+      lc_get (fm_last_claimed s) "alice" = Some 2 /\
+      farm_rewards s f lp0 "alice" 4 (Some 2) = Ok [(3, 262); (4, 262)] /\
+      String.eqb FM "alice" = false /\
+      w_earliest (fm_weights s) "alice" lp0 = Some (2, 500000) /\ w_latest (fm_weights s) "alice" lp0 = Some (2, 500000) /\
+      w_earliest (fm_weights s) FM lp0 = Some (1, 1907205) /\
+      f_claimed f = 524 /\ f_asset f = ("uusdc", 4000).
+
+Lemma split_example : split_statement.
+Proof.
+  unfold split_statement.
+  destruct (genesis_world g0) as [w0|e] eqn:E; [|vm_compute in E; discriminate].
+  exists w0. split; [reflexivity|]. cbv zeta.
+  assert (Hw : w0 = match genesis_world g0 with Ok w => w | Err _ => w0 end) by (rewrite E; reflexivity).
+  rewrite Hw. clear. eexists. split; [vm_compute; reflexivity|]. vm_compute. repeat split; reflexivity.
 Qed.
